@@ -30,6 +30,46 @@ var commonAssumptions = []string{
 func allChecks() []CheckSpec {
 	return []CheckSpec{
 		{
+			ID: "C16",
+			Harnesses: []HarnessSpec{
+				{Fn: "verifC16Attrs", Lemma: "PRIORITY, ICE-CONTROLLING/CONTROLLED, AttrControl, USE-CANDIDATE, DTLS-in-STUN and its ACK: decode(encode(v)) = v through the real stun.Message.Add/Get; more than four ACKs rejected",
+					Bounds: "all 32/64-bit values, 0..5 ACKs, payload 0..3 bytes", MustReach: []string{"acks-ok", "acks-too-many", "done"}},
+				{Fn: "verifC16AttrSizes", Lemma: "decoders accept exactly the documented sizes (PRIORITY 4, tie-breaker 8, ACK multiples of 4 up to 16, nomination >= 4)",
+					Bounds: "attribute values of every length 0..20 with arbitrary bytes", MustReach: []string{"done"}},
+				{Fn: "verifC16Equality", Lemma: "Equal and DeepEqual are reflexive and symmetric and DeepEqual implies Equal, over pairs of candidates from the real constructors",
+					Bounds: "4 types x 5 pool addresses (IPv4, IPv6, IPv4-mapped, mDNS) x udp/tcp x any port/component/priority x 4 TCP types x 3 related-address forms x 0..1 (thorough 0..2) one-byte extensions, for both candidates", MustReach: []string{"equal", "deep-equal", "done"}},
+				{Fn: "verifC16Tokenizers", Lemma: "the five tokenizers on arbitrary text from any start offset: no panic, returned positions within [start,len], tokens respect their alphabets, digit value = decimal value, port <= 65535",
+					Bounds: "all byte strings (full UTF-8 decoding) of length 0..4 (quick) / 0..6 (thorough), every start offset", MustReach: []string{"digits", "done"}},
+				{Fn: "verifC16Extensions", Lemma: "unmarshalCandidateExtensions(marshalExtensions(x)) = x incl. the tcptype pseudo-extension",
+					Bounds: "0..2 (thorough 0..3) extensions with keys/values of 1..2 printable ASCII bytes (symbolic), any TCP type", MustReach: []string{"done"}},
+				{Fn: "verifC16RoundTrip", Lemma: "UnmarshalCandidate(c.Marshal()) has the same component, priority, port, type, transport, address, TCP type, foundation, related address and is Equal to c",
+					Bounds: "candidates as in verifC16Equality with symbolic port/component/priority/related port rendered through a symbolic %d (digit-count case split) and one symbolic extension", MustReach: []string{"related", "done"}},
+				{Fn: "verifC16ParseAny", Lemma: "UnmarshalCandidate on arbitrary text never panics; accepted text re-marshals to text that parses to an Equal candidate",
+					Bounds: "three prefixes (two valid candidates, empty) followed by any 0..3 (thorough 0..5) bytes", MustReach: []string{"accepted", "done"}},
+			},
+			Assumptions: append([]string{
+				"fmt.Sprintf modelled for %s/%d/%v (symbolic %d = exact decimal digits by case split on the digit count); CRC-32 uninterpreted",
+				"netip.ParseAddr / strings functions executed as real code on concrete or partly symbolic text",
+			}, commonAssumptions...),
+			Outside: "arbitrary strings longer than the bounds; fmt internals; netip.ParseAddr on fully symbolic address text",
+		},
+		{
+			ID: "C19",
+			Harnesses: []HarnessSpec{
+				{Fn: "verifC19Evaluate", Lemma: "differential: the real evaluateRewriteRules/ruleMappingForLookup/catchAllSpecificity on symbolic compiled rule lists returns exactly what the documented precedence (first explicit Local match, else most specific matching catch-all iface+CIDR > iface > CIDR > global with declaration order on ties, restricted to rules whose interface, CIDR and family match) returns: same rule, same mode, same family",
+					Bounds: "2 (quick) / 3 (thorough) rules; per rule: interface absent or any 2-byte name, CIDR absent or any /8, explicit entry present/absent, per-family valid and catch-all flags and mode symbolic; lookup: 10.1.1.1, either family flag, interface '' or 'e0'", MustReach: []string{"no-match", "explicit", "catch-all", "done"}},
+				{Fn: "verifC19EvaluateCatchAll4", Lemma: "same differential lemma for 4 catch-all rules (no explicit entries): specificity and declaration order", Bounds: "4 rules, interface/CIDR/flags/mode symbolic as above", MustReach: []string{"catch-all", "done"}, ThoroughOnly: true},
+				{Fn: "verifC19Appliers", Lemma: "applyHostAddressRewrite, applyHostRewriteForUDPMux, resolveSrflxAddresses, resolveRelayAddresses: replace substitutes (empty list drops the candidate), append adds (empty list changes nothing), no match keeps the original; srflx emits only mapped addresses and replace mode switches STUN gathering off",
+					Bounds: "one rule, 0..2 external addresses, both modes, matching / not matching, three candidate types", MustReach: []string{"host", "srflx", "relay", "done"}},
+				{Fn: "verifC19Construct", Lemma: "newAddressRewriteMapper rejects invalid rule sets (bad IP, external with prefix, Local outside CIDR, bad CIDR, peer-reflexive type) and accepts valid ones; catch-alls never cross IP families",
+					Bounds: "all ordered pairs from a pool of 10 concrete rules", MustReach: []string{"valid", "invalid", "done"}},
+			},
+			Assumptions: append([]string{
+				"net.ParseIP / ParseCIDR / IP.String on concrete text evaluated natively or as real code; rule text validation is only exercised on the concrete pool",
+			}, commonAssumptions...),
+			Outside: "IP/CIDR text validation beyond the concrete pool; legacy NAT1To1 string syntax; more than 4 rules",
+		},
+		{
 			ID: "C06",
 			Harnesses: []HarnessSpec{
 				{Fn: "verifC06AddRemote", Lemma: "public AddRemoteCandidate with every kind of trickled candidate (new host/srflx, duplicate, signalled candidate superseding a peer-reflexive one, TCP-active, nil) preserves the bookkeeping invariant I1-I5 (no pair twice, ids unique/in range/indexed, pairs formed from current candidates of one network type, selected listed, remotes deduplicated/never TCP-active/accepted by the IP filter); a superseded peer-reflexive candidate's pairs keep id, state, flags, priority and the selection",
